@@ -184,7 +184,17 @@ func (f *flowCtx) variadicOrigins(ce *ast.CallExpr, fd *ast.FuncDecl, from, dept
 				return out
 			}
 		}
-		return append(out, origin{last, fd})
+		// a slice built in place and spread: its elements
+		for _, o := range f.origins(last, fd, depth) {
+			if cl, ok := o.Expr.(*ast.CompositeLit); ok {
+				for _, el := range cl.Elts {
+					out = append(out, f.origins(el, o.Fd, depth+1)...)
+				}
+			} else {
+				out = append(out, o)
+			}
+		}
+		return out
 	}
 	for i := from; i < len(ce.Args); i++ {
 		out = append(out, f.origins(ce.Args[i], fd, depth)...)
